@@ -24,10 +24,11 @@ def e2e(name, kt, n, eps, epsrec, flt='float', tiers=Q, timeout=900, extra=None,
                        % (n, kt, '; the reserved value allowed as last key -> rejection path' if extra and 'ALLOW_SENTINEL' in extra else '', eps, epsrec, flt))
 
 
-def pla(name, k, epsfix=None, epsmax=2, ymax=12, xmax=255, maximality=True, tiers=Q, timeout=900):
+def pla(name, k, epsfix=None, epsmax=2, ymax=12, xmax=255, maximality=True, tiers=Q, timeout=900, reject=False):
     d = dict(KT['uint8_t']); d.update(NPTS=k, EPSMAX=epsmax, YMAX=ymax, XMAX=xmax, VERIF_VEC_CAP=k + 2)
     if epsfix is not None: d.update(EPSFIX=epsfix, EPSMAX=epsfix)
     if not maximality: d.update(NO_MAXIMALITY=1)
+    if reject: d.update(REJECT_MODE=1)
     return dict(name=name, unit='pla.cpp', harness='h_pla.c', defs=d, narrow=16, timeout=timeout, tiers=tiers,
                 bounds='%d points with strictly increasing uint8_t keys in 0..%d and non-decreasing ranks <= %d, epsilon %s; %s'
                        % (k, xmax, ymax, ('= %d' % epsfix) if epsfix is not None else 'symbolic in 0..%d' % epsmax,
@@ -103,7 +104,9 @@ JOBS['C01'] = [
     e2e('e2e_u8_n3_e1_r1', 'uint8_t', 3, 1, 1),
     e2e('e2e_u8_n3_e1_r0', 'uint8_t', 3, 1, 0),
     e2e('e2e_u8_n4_e1_r0', 'uint8_t', 4, 1, 0, tiers=T, timeout=3000),
-    e2e('e2e_u8_n4_e1_r0_k15', 'uint8_t', 4, 1, 0, timeout=1800, extra=dict(ORD_HI=15), narrow=8),
+    e2e('e2e_u8_n4_e1_r0_k15', 'uint8_t', 4, 1, 0, tiers=T, timeout=3000, extra=dict(ORD_HI=15), narrow=8),
+    e2e('e2e_u8_n4_e1_r0_pAAAB', 'uint8_t', 4, 1, 0, timeout=1800, extra=dict(PATTERN=3)),
+    e2e('e2e_u8_n4_e1_r0_pAABB', 'uint8_t', 4, 1, 0, timeout=1800, extra=dict(PATTERN=5)),
     e2e('e2e_u8_n5_e1_r0_k31', 'uint8_t', 5, 1, 0, tiers=T, timeout=5000, extra=dict(ORD_HI=31), narrow=8, mem_gb=40),
 ]
 JOBS['C03'] = [pla('pla_fit_k3_e0', 3, epsfix=0, maximality=False),
@@ -128,6 +131,7 @@ JOBS['C07'] = [e2e('e2e_u8_n3_e1_r1', 'uint8_t', 3, 1, 1), e2e('e2e_i8_n2_e1_r1'
 JOBS['C16'] = [e2e('frame_u8_n2_e1_r1', 'uint8_t', 2, 1, 1, extra=dict(WITH_FRAME=1)), e2e('frame_u8_n3_e1_r0', 'uint8_t', 3, 1, 0, extra=dict(WITH_FRAME=1))]
 JOBS['C20'] = [e2e('reject_u8_n%d' % n, 'uint8_t', n, 1, 1, extra=dict(ALLOW_SENTINEL=1)) for n in (1, 2)] + \
               [e2e('reject_i8_n2', 'int8_t', 2, 1, 0, extra=dict(ALLOW_SENTINEL=1))]
+JOBS['C20'] += [pla('pla_reject_k3_e1', 3, epsfix=1, ymax=6, maximality=False, reject=True)]
 JOBS['C20'] += [dynrej('dynrej_base', 0), dynrej('dynrej_bulk', 1, 3), dynrej('dynrej_tomb', 2), dynrej('dynrej_range', 3)]
 JOBS['C18'] = [cpgm('cpgm_u32_n2', 'uint32_t', 'uint32', 2), cpgm('cpgm_i32_n2', 'int32_t', 'int32', 2), cpgm('cpgm_u64_n2_null', 'uint64_t', 'uint64', 2, sentinel=True),
                cpgm('cpgm_i64_n3', 'int64_t', 'int64', 3, tiers=T, timeout=3000)]
